@@ -417,4 +417,68 @@ theorem toSubtreeImpl_refines (N : Nat) (ids pids types : List Int) (xs : List A
     simp [Py.len, Py.range]
 end impl
 
+/-! ## `get_subtree_impl` / `get_subtree` on all columns -/
+section getsub
+variable {A Src Nm : Type} [Inhabited A] [Inhabited Src] [Inhabited Nm]
+
+/-- the gather of every column through a topology-level result `((new ids, new parents), mapping)` -/
+def gatherBy (ids pids types : List Int) (xs : List A) (src : Src) (nm : Nm) (r : (List Int × List Int) × List Int) :
+    Option (List Int × List Int × List Int × List Int × List A × (Int × ((List Int × List Int × List Int × List A) × (Src × Nm)))) :=
+  (Py.take ids r.2).bind fun _ => (Py.take pids r.2).bind fun _ =>
+    (Py.take types r.2).bind fun ty => (Py.take xs r.2).map fun x =>
+      (r.2, ids, pids, types, xs, (Py.len r.1.1, (r.1.1, r.1.2, ty, x), src, nm))
+
+/-- **`get_subtree_impl` on all columns factors through the topology-level translation** (the one `C06.generated_getSubtree_eq_model` is
+about), on EVERY input: the same traversal / gather of parents / root reset, then the gather of every column through the mapping -/
+theorem getSubtreeImplTree_eq (fuel : Nat) (ids pids types : List Int) (xs : List A) (src : Src) (nm : Nm) (n : Int) (out0 : List Int) :
+    get_subtree_impl_tree fuel ids pids types xs src nm n out0 =
+      (get_subtree_impl fuel ids pids n).bind (gatherBy ids pids types xs src nm) := by
+  simp only [get_subtree_impl_tree, get_subtree_impl_tree.body, get_subtree_impl, get_subtree_impl.body, Py.seq, Py.bind, toSubtreeImpl_eq, gatherBy]
+  cases Py.unwrapCb (traverse_dfs (Py.wrapE subtree_collect) (Py.wrapL Py.noLeave) fuel (ids, pids) n (some [])) with
+  | none => simp [Py.finish]
+  | some t0 =>
+    simp only
+    cases Py.take pids t0.1 with
+    | none => simp [Py.finish]
+    | some t1 =>
+      simp only
+      cases Py.setIdx t1 0 (-1) with
+      | none => simp [Py.finish]
+      | some t2 =>
+        simp only
+        cases to_sub_topology (t0.1, t2) with
+        | none => simp [Py.finish]
+        | some r =>
+          cases h1 : Py.take ids r.2 <;> cases h2 : Py.take pids r.2 <;> cases h3 : Py.take types r.2 <;> cases h4 : Py.take xs r.2 <;>
+            simp [Py.finish, gatherBy, h1, h2, h3, h4]
+
+/-- `get_subtree` is `get_subtree_impl` handed to the `Tree` constructor: the same value, on every input -/
+theorem getSubtreeTree_eq (fuel : Nat) (ids pids types : List Int) (xs : List A) (src : Src) (nm : Nm) (n : Int) (out0 : List Int) :
+    get_subtree_tree fuel ids pids types xs src nm n out0 = get_subtree_impl_tree fuel ids pids types xs src nm n out0 := by
+  simp only [get_subtree_tree, get_subtree_tree.body, Py.seq, Py.bind]
+  cases get_subtree_impl_tree fuel ids pids types xs src nm n out0 with
+  | none => simp [Py.finish]
+  | some r => simp [Py.finish]
+
+/-- **`get_subtree` as translated, on all columns, IS the model**: on a tree object whose columns all have `|pids|` rows, at the root of any
+subtree `s` of the table, the result is the model's `getSubtree` (characterised by `C06.subtree_nodes`: precisely that node and its
+descendants, in enter order): ids `0..k−1`, the model's parents, every further column gathered at the kept rows in order, `out_mapping` =
+the new→old mapping, `source` / `names` handed on, input columns unchanged -/
+theorem getSubtreeTree_refines (pids types : List Int) (xs : List A) (src : Src) (nm : Nm) (s : Rose)
+    (h : Represents s (rangeI pids.length) pids) (hin : ∀ i ∈ s.ids, 0 ≤ i ∧ i.toNat < pids.length)
+    (h3 : types.length = pids.length) (h4 : xs.length = pids.length) (out0 : List Int) (F : Nat) :
+    get_subtree_tree (2 * s.size + F + 1) (rangeI pids.length) pids types xs src nm s.id out0 =
+      (getSubtree pids s.id).map fun r =>
+        (r.mapping, rangeI pids.length, pids, types, xs,
+          ((r.mapping.length : Int), (Py.range (r.mapping.length : Int), r.newPid, takeRows types r.mapping, takeRows xs r.mapping), src, nm)) := by
+  rw [getSubtreeTree_eq, getSubtreeImplTree_eq, C06.generated_getSubtree_eq_model pids s h hin F]
+  obtain ⟨res, hr, hm, hperm, _⟩ := C06.subtree_nodes pids s h hin
+  have hmem : ∀ i ∈ res.mapping, 0 ≤ i ∧ i.toNat < pids.length := fun i hi => hin i (hperm.mem_iff.1 hi)
+  rw [hr]
+  simp only [Option.map_some, Option.bind_some, gatherBy]
+  rw [take_inrange (rangeI pids.length) res.mapping (by simpa [rangeI] using hmem), take_inrange pids res.mapping hmem,
+    take_inrange types res.mapping (by rw [h3]; exact hmem), take_inrange xs res.mapping (by rw [h4]; exact hmem)]
+  simp [Py.len, Py.range]
+end getsub
+
 end RefineShortTip
